@@ -35,6 +35,20 @@ func (sm *seatManager) RandomAssignSeats(playerIDs []string) error {
 	sm.mu.Lock()
 	defer sm.mu.Unlock()
 
+	// a player gets at most one seat: refuse ids repeated in the batch or already seated
+	batch := make(map[string]bool)
+	for _, playerID := range playerIDs {
+		if batch[playerID] {
+			return ErrDuplicatePlayers
+		}
+		batch[playerID] = true
+	}
+	for _, seatPlayer := range sm.SeatData {
+		if seatPlayer != nil && batch[seatPlayer.ID] {
+			return ErrPlayerIsAlreadyExist
+		}
+	}
+
 	seatIDs, err := sm.randomSeatIDs(len(playerIDs))
 	if err != nil {
 		sm.printState(1, func(tag int) {
